@@ -58,6 +58,20 @@ pub fn run(ctx: &mut Ctx) {
               // a description in front of a fragment definition (found while proving the document-level acceptance theorem)
               "\"d\" fragment on T { a }", "\"\"\"d\"\"\" fragment on T @x { a }", "\"d\" fragment F on T { a }", "{ a } \"d\" fragment on T { a }",
               "\"d\" fragment on on { a }", "\"d\" extend type A @d", "\"d\" mutation { a }"] { one(ctx, s); }
+    // restricted names: every position that takes a Name, with and without a description / directives in front,
+    // filled with each keyword-like name (EnumValue is Name but not true/false/null; FragmentName is Name but not on)
+    let templates = ["enum E { § }", "enum E { \"d\" § }", "enum E { \"\"\"d\"\"\" § @x }", "enum E { A \"d\" § }", "enum E { § A }", "enum E { \"d\" § \"e\" A }",
+        "extend enum E { § }", "extend enum E { \"d\" § }", "extend enum E @x { \"d\" § @y }", "\"t\" enum E @x { \"d\" § }",
+        "{ a(x: §) }", "{ a(x: [§]) }", "{ a(x: {k: §}) }", "query($v: T = §) { a }", "type T { f(x: Int = §): Int }", "type T { f(\"d\" x: E = § @y): Int }",
+        "directive @d(x: E = §) on FIELD", "input I { x: E = § }", "input I { \"d\" x: E = § }",
+        "fragment § on T { a }", "{ ...§ }", "{ ... § }", "{ ...§ @d }", "fragment F on § { a }", "{ ... on § { a } }",
+        "type § { a: Int }", "\"d\" type § { a: Int }", "type T { §: Int }", "type T { \"d\" §: Int }", "type T { f(§: Int): Int }", "type T { f(\"d\" §: Int): Int }",
+        "{ §: a }", "{ a: § }", "{ § }", "query § { a }", "mutation § @d { a }", "type T implements § { a: Int }", "type T implements & § & A { a: Int }", "union U = §", "union U = | § | A",
+        "directive @§ on FIELD", "directive @d on §", "directive @d repeatable on § | FIELD", "{ a @§ }", "scalar §", "\"d\" scalar §", "input § { a: Int }", "interface § { a: Int }",
+        "schema { query: § }", "extend schema { mutation: § }", "{ a(§: 1) }", "{ a(x: {§: 1}) }", "query($§: Int) { a }", "query($v: §) { a }", "query($v: [§!]) { a }", "extend scalar § @d"];
+    let names = ["true", "false", "null", "on", "a", "query", "fragment", "type", "extend", "schema", "implements", "repeatable", "input", "enum", "FIELD", "mutation", "subscription"];
+    for t in templates { for n in names { one(ctx, &t.replace('§', n)); } }
+    ctx.stat_n("restricted_name_cases", (templates.len() * names.len()) as u64);
     let mut seqs = vec![];
     token_seqs(&["{", "}", "(", ")", ":", "$", "@", "a", "on", "query", "type", "extend", "schema", "...", "1"], if ctx.thorough { 6 } else { 5 }, |s| seqs.push(s.to_string()));
     ctx.stat_n("token_seqs", seqs.len() as u64);
